@@ -210,7 +210,17 @@ impl Scenario for C12 {
         let av = |i: usize| w.sc_addr_val(&ad[i]);
         // (function, args, authoriser, expected-acceptance, expected events, model update)
         let mut expected_events: Vec<EvPat> = vec![];
-        let unspecified_outcome = false;
+        // a zero-amount mint / transfer / burn moves nothing: the statement does not say whether
+        // it is accepted, so only "no effect" is required of it
+        let zero_amount = match a {
+            Act::Mint { to, amt } | Act::MintFrom { to, amt, .. } => resolve(m, *amt, *to, None) == 0,
+            Act::Transfer { from, amt, .. } | Act::Burn { from, amt } => resolve(m, *amt, *from, None) == 0,
+            Act::TransferFrom { spender, from, amt, .. } | Act::BurnFrom { spender, from, amt } => {
+                resolve(m, *amt, *from, Some((*from, *spender))) == 0
+            }
+            _ => false,
+        };
+        let unspecified_outcome = zero_amount;
         let (call, want): (Call, bool) = match a {
             Act::Advance(n) => {
                 out.kind = "advance";
@@ -362,7 +372,9 @@ impl Scenario for C12 {
                     a, call.ok, call.err, want, m.bal, m.allow, m.minters, m.owner, m.seq)
             });
         }
-        if call.ok {
+        if call.ok && zero_amount {
+            // nothing may have moved (probes compare every balance and allowance with the unchanged model)
+        } else if call.ok {
             let r = match_events(&call.events, &expected_events, &["mint", "transfer", "approve", "burn", "set_admin", "clawback"]);
             out.expect(r.is_ok(), &format!("{}.events", out.kind), || truncate(&r.unwrap_err(), 600));
         } else {
